@@ -42,6 +42,9 @@ func (h schemasResourceHandler) ResolveFilter(_ common.ResourceQuery[any], opera
 		}
 		return fmt.Sprintf("created_at %s ?", common.ConvertOperatorToSQL(operator)), []any{value}, nil
 	case "version":
+		if operator == queries.OperatorIn {
+			return "version IN (?)", []any{bun.In(value)}, nil
+		}
 		return fmt.Sprintf("version %s ?", common.ConvertOperatorToSQL(operator)), []any{value}, nil
 	default:
 		return "", nil, fmt.Errorf("unknown key '%s' when building query", property)
